@@ -659,6 +659,9 @@ class Gen:
                 if d is not None and r < 0.5:
                     return ("ref", d, "<")
                 return self.num(rng.randrange(0, 256))
+            if d is not None and r < 0.05 and d.kind in ("label", "const") and kind != "zpaddr":
+                # the same name twice in one expression (its value cancels out)
+                return ("bin", "+", ("bin", "-", ("ref", d, None), ("ref", d, None)), self.num(rng.choice([0x10, 0xFE, 0x100, 0x0400, 0xD020])))
             if d is not None and r < 0.75:
                 if d.kind == "index":
                     return ("bin", "+", self.num(rng.choice([0x10, 0xF8, 0x400])), ("ref", d, None))
